@@ -1611,6 +1611,9 @@ func (g Gateway) SubscribeToEvents(in *hydrapb.SubscribeToEventsRequest, eventSe
 	// Get the server context
 	hydraInterface := g.ZeusInterface.GetHydra()
 
+	// serializes the writes of this subscription's stream
+	var sendMu sync.Mutex
+
 	eventCallbackFunction := func(event *swamp.Event) {
 
 		if event == nil {
@@ -1628,7 +1631,8 @@ func (g Gateway) SubscribeToEvents(in *hydrapb.SubscribeToEventsRequest, eventSe
 		convertedStatusType := convertTreasureStatusToPbStatus(event.StatusType)
 
 		// convert the event time to the protobuf format
-		convertedEventTime := timestamppb.New(time.Unix(event.EventTime, 0))
+		// EventTime is in unix nanoseconds
+		convertedEventTime := timestamppb.New(time.Unix(0, event.EventTime))
 		convertedOldTreasure := &hydrapb.Treasure{}
 		convertedDeletedTreasure := &hydrapb.Treasure{}
 
@@ -1661,6 +1665,11 @@ func (g Gateway) SubscribeToEvents(in *hydrapb.SubscribeToEventsRequest, eventSe
 		}
 
 		// send the message to the client
+		// The callback runs on the goroutine of whichever request changed the
+		// swamp, so several can arrive at once; a gRPC stream must not be
+		// written to concurrently.
+		sendMu.Lock()
+		defer sendMu.Unlock()
 		if sendErr := eventServer.SendMsg(&hydrapb.SubscribeToEventsResponse{
 			SwampName:       eventSwampName,
 			Treasure:        convertedTreasure,
